@@ -75,6 +75,14 @@ def cases(seed, tier):
             if tier == "quick" and i % 3:
                 continue
             yield [("GET", p) for p in tbl], [("GET", q) for q in paths]
+    # literal-heavy buckets with many re-registrations (sorting / de-duplication of the literal table only shows with > 20 entries)
+    for _ in range(60 if tier == "quick" else 3000):
+        k = r.choice([21, 25, 33, 48, 64, 100])
+        m = r.choice(["GET", "GET", "POST", "PURGE"])
+        names = [b"/" + b"/".join(r.choice(LITS[:5]) for _ in range(r.choice([1, 2, 3]))) for _ in range(r.choice([4, 8, 16, 30]))]
+        regs = [(m if r.random() < 0.9 else r.choice(METHODS), r.choice(names) if r.random() < 0.9 else gen_pattern(r)) for _ in range(k)]
+        qs = [(m, r.choice(names)) for _ in range(10)] + [(m, rand_path(r)) for _ in range(2)]
+        yield regs, qs
     n = 1500 if tier == "quick" else 60000
     for _ in range(n):
         k = r.choice([0, 1, 2, 3, 5, 8, 13, 40])
